@@ -113,7 +113,8 @@ def shapes_quick():
     """Concrete shapes (letters) for the quick tier: every mask of length <= 3 plus two longer
     ones, virtual / non-virtual kinds rotating so that each kind occurs."""
     ms = [m for m in masks(3, 3)] + ["vnvnv", "nvnv", "vvvv", "nvvnv"]
-    return _assign(ms)
+    # consecutive by-value virtual_ptr parameters (each passed in two registers)
+    return _assign(ms) + ["VV", "iVVV", "VXV"]
 
 
 def shapes_thorough():
